@@ -10,7 +10,8 @@ N_THOROUGH = 3000
 RULE = ("generated valid game files: JSON DSL (float payoffs/weights, shared chance infosets, single-action and single-outcome "
         "nodes) and Gambit .efg (constant pair sum != 0, payoffs on interior nodes, outcomes shared between nodes, unnamed "
         "infosets printed by number, rational probabilities, unsorted action lists, decimal and fraction literals) x random option "
-        "combinations (-m x -d x -t x -r x -p x -c, file/stdin, stdout/-o): the binary must exit 0 and print one JSON object; "
+        "combinations (-m x -d x -t x -r x -p x -c, file/stdin, stdout/-o incl. an output path that already holds a longer older "
+        "result; Gambit constants from 1/4000 to 10^6 against payoff spreads of order 1-20): the binary must exit 0 and print one JSON object; "
         "monitor: the printed strategies are parsed and evaluated on the game exactly as written in the file by an independent "
         "Python evaluator (expected own payoffs, grouped best response) and compared with every printed number, p1+p2 = constant, "
         "each infoset of the file once, rows positive summing to 1; for -m full the whole object is additionally compared with the "
@@ -43,7 +44,10 @@ def run(out, rng, tier, args):
             a += ["--input-format", fc.fmt]
         ext = {"json": ".json", "gambit": ".efg"}[fc.fmt] if rng.random() < 0.7 else rng.choice([".txt", ""])
         res = cli.run_cli(a, text=fc.text if fc.route == "stdin" else None, path_text=fc.text if fc.route == "file" else None,
-                          ext=ext, out_file=fc.to_file, name="c15_%d" % fc.cid)
+                          ext=ext, out_file=fc.to_file, name="c15_%d" % fc.cid,
+                          # half of the -o runs write to a path that already holds a longer, older result
+                          prefill=('{"regret":0.0,"player_one_strategy":{%s}}' % ",".join('"old%d":{"x":1.0}' % k for k in range(400)))
+                          if fc.to_file and fc.cid % 2 == 0 else None)
         replay = {"file": fc.text, "format": fc.fmt, "options": a, "route": fc.route, "result": {k: res[k] for k in ("exit", "stderr", "cmd")},
                   "stdout": res["stdout"][:4000], "outfile": (res["outfile"] or "")[:4000]}
         out.count("format_" + fc.fmt)
